@@ -16,7 +16,7 @@ class ClientBoom(Exception):
 
 
 def run_scenario(sc, schedule=None, seed=0, max_points=60000):
-    sim = Sim(schedule=schedule, seed=seed, policy="random", max_points=max_points, wall_limit=30, quiesce_limit=50.0)
+    sim = Sim(schedule=schedule, seed=seed, policy="pct" if (seed or 0) % 3 == 0 else "random", max_points=max_points, wall_limit=30, quiesce_limit=50.0 if not (sc.get("fault") or {}).get("kind") == "slow_raise" else 400.0)
     res = {}
     with patched(sim):
         from aws_durable_execution_sdk_python.exceptions import BackgroundThreadError
@@ -32,7 +32,10 @@ def run_scenario(sc, schedule=None, seed=0, max_points=60000):
                 sim.point()
                 k = len(calls)
                 ids = [u.operation_id for u in updates]
-                if fault and fault["at"] == k and fault["kind"] == "raise":
+                if fault and fault["at"] == k and fault["kind"] == "slow_raise":
+                    # the call stays in flight for a long (virtual) time and is then refused
+                    sim.block_until(lambda: False, 150.0)
+                if fault and fault["at"] == k and fault["kind"] in ("raise", "slow_raise"):
                     calls.append((checkpoint_token, ids, "raise"))
                     sim.log("api.fail", None)
                     raise ClientBoom(f"call {k} failed")
@@ -379,7 +382,7 @@ def gen_scenario(rng, with_fault=False):
     sc = {"cfg": cfg, "producers": producers, "fault": None, "stop": "end"}
     if with_fault:
         total = sum(len(p) for p in producers)
-        sc["fault"] = {"at": rng.randrange(0, max(1, min(total, 4))), "kind": rng.choice(["raise", "raise", "after_apply"])}
+        sc["fault"] = {"at": rng.randrange(0, max(1, min(total, 4))), "kind": rng.choice(["raise", "raise", "raise", "after_apply", "after_apply", "slow_raise"])}
     return sc
 
 
